@@ -65,6 +65,38 @@ eq, lt, gt, lte }` (src/uint/{add,sub,neg,cmp}.rs; namespace CB.Gen.Chains.Uint)
       in the order of their declaration in the function (not of their use: reordering the statements of the body keeps
       the signature).  An untyped state variable (`let mut carry = 1;`) gets the one integer width that type-checks the
       body (tried: 8, 32, 64, 128; none or several -> unsupported).
+
+Fourth unit group (round 4, written to lean/CB/Gen/Shifts.lean, imports CB.Gen.Prim): the shift / bit-query layer of C05 —
+`impl Limb { shl, shl1, shr, shr1, bits, leading_zeros, trailing_zeros, trailing_ones, bitor, select }`
+(src/limb/{shl,shr,bits,bit_or,cmp}.rs; namespace CB.Gen.Shifts.Limb) and `impl<const LIMBS: usize> Uint<LIMBS> { select,
+overflowing_shl1, shl_limb, shr1, shr1_with_carry, overflowing_sh{l,r}_vartime, sh{l,r}_vartime, wrapping_sh{l,r}_vartime,
+overflowing_sh{l,r}, sh{l,r}, wrapping_sh{l,r} }` (src/uint/{cmp,shl,shr}.rs; namespace CB.Gen.Shifts.Uint).  Subset extensions:
+  a unit may name further units holding methods of `Limb` / `Uint` (`limb_more=[..]`, `uint_more=[..]`), searched first;
+  `Limb::HI_BIT` / `Self::HI_BIT` (63), `Self::BITS` inside `impl Limb` (64); inside a generic `impl Uint`: `Self::ZERO`
+  (`List.replicate LIMBS 0#64`) and `Self::BITS` (`BitVec.ofNat 32 (64 * LIMBS)`, the `u32` constant);
+  `x.wrapping_shl(s)` / `x.wrapping_shr(s)` (amount masked to the width), `x.trailing_zeros()` (`BitVec.ctz x`),
+  `x.trailing_ones()` (`BitVec.ctz (~~~x)`), `/` and `%` on words, `<<` / `>>` by a loop counter kept as a `Nat`
+  (amount modulo the width, like every non-constant amount);
+  `name.limbs[i] = e` (the same as `name[i] = e`), turbofish in paths (`Uint::<LIMBS>::new`), the last assignment of a block
+  without `;`, string literals (only as the message of `.expect("..")`);
+  `e as usize` of a word in a generic unit is its value as a `Nat` (`(e).toNat`): limb indices and counts are `Nat`s, and
+  `a - b` on them is the truncated `Nat` subtraction (Rust panics on underflow; never reached where the index is in range);
+  a `ConstCtOption<T>` (parameter, local or result) is the pair (value, is_some mask): `ConstCtOption::some(v)` = `(v, ~~~0)`,
+  `::none(v)` = `(v, 0)`, `::new(v, c)` = `(v, c)`; `o.unwrap_or(def)` on a `ConstCtOption<Uint>` is the
+  `Uint::select(&def, &o.value, o.is_some)` it is defined as; `o.expect("..")` is the VALUE `o.1` — the assertion it makes is
+  not part of the translation, it is a statement about the hand-written model (outer `Option`), discharged by the bridge
+  theorems `model = some (translated ..)`;
+  an early return `if cond { return e; }` (no `else`) at the top level of a function: `if cond then e else <the rest>`;
+  body-local `let mut` variables of a `while` body may be re-assigned (they are not loop state);
+  the limb count `LIMBS` is passed to every auxiliary loop definition of a generic unit translated by the two forms below and by
+  the fourth form above (it was captured there already: the bound mentions it);
+  the fourth `while` form also with a `usize` VARIABLE as start value (`let mut i = shift_num; while i < LIMBS { .. }`; fuel
+  `LIMBS - shift_num`), with a `Nat` bound expression (`LIMBS - shift_num`) and with a word bound (`while i < shift_bits`, both
+  `u32`: compared as `Nat`s, fuel `shift_bits.toNat`);
+  a fifth `while` form:
+    - `while i > 0 { i -= 1; ..; }` with a `usize` counter (`let mut i = LIMBS;`, or the counter left by a preceding
+      `while i < BOUND` loop, whose value is BOUND) becomes `<fn>_loop<j> captured.. : Nat → state.. → state` by structural
+      recursion on the counter itself: round `n + 1` runs the body with `i = n`; state / captured as in the fourth form.
 """
 import os, re, sys, json
 
